@@ -7,8 +7,8 @@ ROOT = os.path.dirname(os.path.dirname(os.path.abspath(__file__)))
 CLAIMED = {
     "C06": dict(
         text="Seeded search over session histories with injected failures at every pipeline stage (parse, unknown/unavailable/broken module, name clash, type error, run-time error, fault at an arbitrary VM instruction). After every input the faulted session is compared with a twin that never saw the failing inputs and with a snapshot taken before the input (names, values, types, signatures, unit definitions, re-imports, fresh definitions, results of all later inputs). Evidence of absence on the histories explored, not a proof.",
-        note="Trusted: the simulator (generator, SimImporter, probe battery), Context::clone being faithful (checked separately by C07's fork mode), numbat's Display of values/errors as the observation channel. Currency on-demand loading excluded.",
-        technique="deterministic simulation: seeded histories + fault injection (VM-instruction fault hook, faulty module importer), twin-session refinement oracle",
+        note="Trusted: the simulator (generator, SimImporter, probe battery), Context::clone being faithful (checked separately by C07's fork mode), numbat's Display of values/errors as the observation channel. Currency on-demand loading is exercised in a sub-batch with its one by-design exception modelled narrowly; process-wide state is covered by a fresh-process reference (fork) in a sub-batch.",
+        technique="deterministic simulation: seeded histories + fault injection (VM-instruction fault hook, faulty module importer), twin-session refinement oracle, from-scratch and fresh-process (fork) references",
         ref="§5 C06"),
     "C07": dict(
         text="Seeded search over successful histories executed in five modes (one input per line, all joined, chunked at seeded points, scripted REPL with failing traffic and read-only commands followed by save and replay of the saved file, fork of the session with independent continuations) with per-element and final observational comparison; save is additionally run against fault-injecting writers and real unwritable destinations with a byte-exact model. Thorough tier cross-checks the REPL glue against the real binary.",
@@ -18,7 +18,7 @@ CLAIMED = {
     "C17": dict(
         text="Imports as commutative idempotent deliveries: seeded subsets of the real standard-library modules delivered in seeded orders with duplication and batching (separate inputs, one input, nested through synthetic modules); every delivery must succeed, duplicates must cause zero importer calls and no state change, the final observable digest (names, types, values, unit and dimension definitions) must equal that of the canonical delivery. Thorough tier enumerates all ordered pairs exhaustively.",
         note="Trusted: the simulator and digest; exchange rates pinned by numbat's own test stub; units::currencies evaluated with rate 1.0.",
-        technique="deterministic simulation: seeded delivery schedules (reorder, duplicate, batch) of module imports through an instrumented importer; convergence oracle; exhaustive ordered pairs in thorough",
+        technique="deterministic simulation: seeded delivery schedules (reorder, duplicate, batch) of module imports through an instrumented importer and through numbat's own importers; convergence oracle; exhaustive ordered pairs in thorough",
         ref="§5 C17"),
     "C18": dict(
         text="Seeded search over operation histories on up to six simultaneously live list handles (construction, clone, drop, push_front/back, tail, head, ==, Debug) with a Vec reference model compared on all handles after every operation, plus panicking element clones as a fault, plus the same representation driven through the interpreter on sessions cloned mid-way. The drop/clone schedule decides which code path (in place vs copy) each operation takes.",
